@@ -1,9 +1,10 @@
 ------------------------------ MODULE C07Judge ------------------------------
 (* Judges the records written by harness/c07_writesafe.cpp (what the real field code did with  *)
 (* every generated case) against the P oracle WriteSafe.                                       *)
-(* One TLC state judges one block of K records: definitions that depend on RECURSIVE operators *)
-(* (the digit-sequence tables, Defs) are not pre-evaluated by TLC but re-evaluated per state,  *)
-(* so the block size amortises them; the blocks are spread over the workers.                   *)
+(* One TLC state judges one block of K records.  Blocks are first announced (phase = 0) and    *)
+(* judged when a worker takes the announced state (phase = 1), which spreads them over the     *)
+(* workers.  NOTE: the state variables must not be named like a bound variable of the extended *)
+(* modules (e.g. "i"): TLC then stops caching LET/argument values and gets ~100x slower.       *)
 EXTENDS WriteSafe, Json, IOUtils
 
 ASSUME BigDecLemmas /\ WriteSafeLemmas
@@ -11,12 +12,14 @@ ASSUME BigDecLemmas /\ WriteSafeLemmas
 Recs == ndJsonDeserialize(IOEnv.VF_RECS)       \* this shard of the record file
 Cases == ndJsonDeserialize(IOEnv.VF_CASES)     \* the complete case file emitted by C07Gen
 First == atoi(IOEnv.VF_FIRST)                  \* number of the first record of this shard
+NDef == atoi(IOEnv.VF_NDEFS)                   \* number of definitions announced by C07Gen
 N == Len(Recs)
 K == 400
 NB == (N + K - 1) \div K
-VARIABLE i                                     \* 0: start, -1: completeness check, b > 0: block b
-Init == i = 0
-Next == i = 0 /\ i' \in (1..NB) \cup {-1}
+VARIABLES blk, phase                                \* blk = 0: start, -1: completeness check, b > 0: block b
+Init == blk = 0 /\ phase = 0
+Next == \/ blk = 0 /\ blk' \in (1..NB) \cup {-1} /\ phase' = 0
+        \/ blk # 0 /\ phase = 0 /\ phase' = 1 /\ blk' = blk
 
 BadIn(b) == {k \in ((b - 1) * K + 1)..(IF b * K < N THEN b * K ELSE N) :
                LET r == Recs[k]  w == Why(Defs[r.d], r) IN w # "" /\ PrintT(<<"VF", "BAD", k, <<r.n, w>>>>)}
@@ -24,14 +27,14 @@ BadIn(b) == {k \in ((b - 1) * K + 1)..(IF b * K < N THEN b * K ELSE N) :
 (* domain completeness: the definitions replayed are the definitions of the specification, and *)
 (* the records of this shard are exactly the cases First .. First+N-1 of the generated domain  *)
 Complete ==
-  LET nd == Len(Defs)  bl == [d \in 1..nd |-> ByteLen(Defs[d])] IN
-  /\ \A d \in 1..nd : LET c == Cases[d] IN
+  /\ NDef = Len(Defs)
+  /\ \A d \in 1..NDef : LET c == Cases[d] IN
         c.k = "def" /\ c.d = d /\ c.ty = Defs[d].ty /\ c.len = Defs[d].len /\ Seq1(c.dvs) = Seq1(Defs[d].dvs)
-  /\ \A k \in 1..N : LET c == Cases[nd + First + k]  r == Recs[k] IN
-        c.k = "case" /\ r.n = First + k - 1 /\ r.d = c.d /\ Seq1(r.t) = Seq1(c.t) /\ r.len = bl[r.d]
-  /\ PrintT(<<"VF", "SHARD", First, N, Len(Cases) - nd>>)
+  /\ \A k \in 1..N : LET c == Cases[NDef + First + k] IN
+        c.k = "case" /\ Recs[k].n = First + k - 1 /\ Recs[k].d = c.d /\ Seq1(Recs[k].t) = Seq1(c.t)
+  /\ PrintT(<<"VF", "SHARD", First, N, Len(Cases) - NDef>>)
 
-Judge == CASE i = 0 -> TRUE
-           [] i = -1 -> Complete \/ ~PrintT(<<"VF", "INCOMPLETE", First>>)
-           [] OTHER -> BadIn(i) = {}
+Judge == CASE phase = 0 -> TRUE
+           [] blk = -1 -> Complete \/ ~PrintT(<<"VF", "INCOMPLETE", First>>)
+           [] OTHER -> BadIn(blk) = {}
 =============================================================================
